@@ -131,7 +131,7 @@ class SymPath:
             self._bind(env, n.target, self._sym(n.value, env))
         elif ev.kind == 'stmt' and isinstance(n, ast.AugAssign) and isinstance(n.target, ast.Name):
             env = dict(env)
-            old = self._sym(n.target, env)
+            old = self._sym(ast.Name(id=n.target.id, ctx=ast.Load()), env)
             env[n.target.id] = ast.BinOp(left=old, op=n.op, right=self._sym(n.value, env))
         elif ev.kind == 'iter' and ev.val == 'iter':
             env = dict(env)
@@ -276,8 +276,10 @@ class SymRow(Row):
 
 
 def symtable(fn: T.Union[ast.FunctionDef, ast.AsyncFunctionDef], name: str, body: T.Optional[T.List[ast.stmt]] = None,
-             since: T.Optional[T.Callable[[SymPath], T.Optional[int]]] = None, **kw: T.Any) -> Table:
-    """`since(path)` -> index of the first event that belongs to the table (None: path not in the table)."""
+             since: T.Optional[T.Callable[[SymPath], T.Optional[int]]] = None,
+             drop: T.Optional[T.Callable[[Atom], bool]] = None, **kw: T.Any) -> Table:
+    """`since(path)` -> index of the first event that belongs to the table (None: path not in the table).
+    `drop(atom)`: facts the table is projected away from (the rows then fire whatever their value)."""
     rows: T.List[Row] = []
     seen: T.Set[str] = set()
     for sp in sympaths(fn, body, **kw):
@@ -295,7 +297,7 @@ def symtable(fn: T.Union[ast.FunctionDef, ast.AsyncFunctionDef], name: str, body
                 break
         if not feasible or any(a.kind == 'truth' and _const_truth(a.args[0]) not in (None, v) for a, v in conds.items()):
             continue      # contradictory, or `if x:` right after `x = None` on this path
-        conds = {a: v for a, v, i in sp.conds() if i >= start}
+        conds = {a: v for a, v, i in sp.conds() if i >= start and not (drop is not None and drop(a))}
         r = SymRow(sp, conds, start)
         key = repr(r) + '|' + repr([(id(ev.node), ev.val) for ev in sp.path.events[start:] if ev.kind != 'cond'])
         if key in seen:
@@ -404,8 +406,20 @@ def unguarded(cfg: CFG, is_guard: T.Callable[[Node], bool]) -> T.Set[int]:
     """Ids of nodes that can start executing although no guard call has *completed*:
     reachable from the entry without following a normal (non-exception) edge out of a guard node.
     The guard node itself is included (it starts unguarded); what follows its normal exit is not."""
-    guards = {n.id for n in cfg.nodes if is_guard(n)}
-    return cfg.reachable([cfg.entry], edge_ok=lambda a, b, lab: not (a.id in guards and lab != 'exc'), include_start=True)
+    guards: T.Dict[int, T.Any] = {}
+    for n in cfg.nodes:
+        g = is_guard(n)
+        if g:
+            guards[n.id] = g
+
+    def follow(a: Node, b: Node, lab: T.Any) -> bool:
+        g = guards.get(a.id)
+        if g is None:
+            return True
+        if g in ('T', 'F'):            # an inline test: only its "allowed" edge is guarded
+            return lab != (g == 'T')
+        return lab == 'exc'
+    return cfg.reachable([cfg.entry], edge_ok=follow, include_start=True)
 
 
 def self_method_called(c: ast.Call) -> T.Optional[str]:
@@ -465,16 +479,60 @@ def inline_helpers(fn: ast.FunctionDef, methods: T.Dict[str, T.Any], vocab: T.It
     vocab = set(vocab)
     counter = [0]
 
-    def eligible(c: ast.AST) -> T.Optional[ast.FunctionDef]:
+    def eligible(c: ast.AST, gen: bool = False) -> T.Optional[ast.FunctionDef]:
         if not isinstance(c, ast.Call):
             return None
         m = self_method_called(c)
         if not m or m in vocab or m == fn.name or m not in methods:
             return None
         callee = methods[m]
-        if any(isinstance(n, (ast.Yield, ast.YieldFrom, ast.Await, ast.Global, ast.Nonlocal)) for n in ast.walk(callee)):
+        if any(isinstance(n, (ast.Await, ast.Global, ast.Nonlocal)) for n in ast.walk(callee)):
             return None
-        return callee
+        is_gen = any(isinstance(n, (ast.Yield, ast.YieldFrom)) for n in walk_no_nested(callee))
+        return callee if is_gen == gen else None
+
+    def gen_call(v: T.Optional[ast.AST]) -> T.Optional[ast.Call]:
+        """`list(self.g(..))` / `[*self.g(..)]` / `tuple(..)` with g a generator helper -> the inner call"""
+        inner = None
+        if isinstance(v, ast.Call) and attr_chain(v.func) in ('list', 'tuple') and len(v.args) == 1 and not v.keywords:
+            inner = v.args[0]
+        elif isinstance(v, ast.List) and len(v.elts) == 1 and isinstance(v.elts[0], ast.Starred):
+            inner = v.elts[0].value
+        return inner if isinstance(inner, ast.Call) and eligible(inner, True) else None
+
+    def expand_gen(call: ast.Call, d: int) -> T.Optional[T.Tuple[T.List[ast.stmt], ast.AST]]:
+        """statements that collect what the generator helper yields into a fresh list, and the name of that list"""
+        callee = T.cast(ast.FunctionDef, eligible(call, True))
+        body = [s for s in callee.body if not (isinstance(s, ast.Expr) and isinstance(s.value, ast.Constant))] or [ast.Pass()]
+        if any(isinstance(n, ast.Return) for s in body for n in walk_no_nested(s)):
+            return None
+        ys = [n for s in body for n in walk_no_nested(s) if isinstance(n, (ast.Yield, ast.YieldFrom))]
+        stmts_with_y = [s for b in [body] for s in ast.walk(ast.Module(body=b, type_ignores=[])) if isinstance(s, ast.Expr) and isinstance(s.value, (ast.Yield, ast.YieldFrom))]
+        if len(stmts_with_y) != len(ys):
+            return None        # a yield used as an expression
+        counter[0] += 1
+        names = {a.arg for a in callee.args.args + callee.args.kwonlyargs if a.arg != 'self'}
+        names |= {n.id for s in body for n in ast.walk(s) if isinstance(n, ast.Name) and isinstance(n.ctx, (ast.Store, ast.Del))}
+        ren = {n: f'_{callee.name.strip("_")}{counter[0]}_{n}' for n in names}
+        binds = _bind_args(callee, call, ren)
+        if binds is None:
+            return None
+        acc = f'_{callee.name.strip("_")}{counter[0]}_items'
+        new = [_Rename(ren).visit(copy.deepcopy(s)) for s in body]
+
+        class Y(ast.NodeTransformer):
+            def visit_Expr(self, st: ast.Expr) -> ast.AST:
+                v = st.value
+                if isinstance(v, ast.Yield):
+                    return ast.copy_location(ast.Expr(value=ast.Call(func=ast.Attribute(value=ast.Name(id=acc, ctx=ast.Load()), attr='append', ctx=ast.Load()),
+                                                                     args=[v.value or ast.Constant(value=None)], keywords=[])), st)
+                if isinstance(v, ast.YieldFrom):
+                    return ast.copy_location(ast.Expr(value=ast.Call(func=ast.Attribute(value=ast.Name(id=acc, ctx=ast.Load()), attr='extend', ctx=ast.Load()),
+                                                                     args=[v.value], keywords=[])), st)
+                return st
+        new = [Y().visit(s) for s in new]
+        init = ast.copy_location(ast.Assign(targets=[ast.Name(id=acc, ctx=ast.Store())], value=ast.List(elts=[], ctx=ast.Load()), lineno=call.lineno), call)
+        return binds + [init] + block(new, d - 1), ast.Name(id=acc, ctx=ast.Load())
 
     def expand(callee: ast.FunctionDef, call: ast.Call, mode: str, d: int) -> T.Optional[T.Tuple[T.List[ast.stmt], T.Optional[ast.AST]]]:
         body = [s for s in callee.body if not (isinstance(s, ast.Expr) and isinstance(s.value, ast.Constant))] or [ast.Pass()]
@@ -505,10 +563,64 @@ def inline_helpers(fn: ast.FunctionDef, methods: T.Dict[str, T.Any], vocab: T.It
             new.append(ast.copy_location(ast.Return(value=None), call))
         return binds + block(new, d - 1), result
 
+    def expand_cm(c: ast.AST, body: T.List[ast.stmt], d: int) -> T.Optional[T.List[ast.stmt]]:
+        """`with self.cm(..): BODY` with cm a @contextmanager helper that yields once, as a statement: the helper with BODY in place of the yield"""
+        if not isinstance(c, ast.Call):
+            return None
+        callee = eligible(c, True)
+        if callee is None or not any((attr_chain(x) or '').split('.')[-1] == 'contextmanager' for x in callee.decorator_list):
+            return None
+        cbody = [s for s in callee.body if not (isinstance(s, ast.Expr) and isinstance(s.value, ast.Constant))]
+        ys = [n for s in cbody for n in walk_no_nested(s) if isinstance(n, (ast.Yield, ast.YieldFrom))]
+        if len(ys) != 1 or not isinstance(ys[0], ast.Yield) or ys[0].value is not None or any(isinstance(n, ast.Return) for s in cbody for n in walk_no_nested(s)):
+            return None
+        counter[0] += 1
+        names = {a.arg for a in callee.args.args + callee.args.kwonlyargs if a.arg != 'self'}
+        names |= {n.id for s in cbody for n in ast.walk(s) if isinstance(n, ast.Name) and isinstance(n.ctx, (ast.Store, ast.Del))}
+        ren = {n: f'_{callee.name.strip("_")}{counter[0]}_{n}' for n in names}
+        binds = _bind_args(callee, c, ren)
+        if binds is None:
+            return None
+        new = [_Rename(ren).visit(copy.deepcopy(s)) for s in cbody]
+        placed = [0]
+
+        def put(stmts: T.List[ast.stmt]) -> T.List[ast.stmt]:
+            res: T.List[ast.stmt] = []
+            for s in stmts:
+                if isinstance(s, ast.Expr) and isinstance(s.value, ast.Yield):
+                    placed[0] += 1
+                    res.extend(body)
+                    continue
+                for field in ('body', 'orelse', 'finalbody'):
+                    sub = getattr(s, field, None)
+                    if isinstance(sub, list) and sub and isinstance(sub[0], ast.stmt) and not isinstance(s, (ast.FunctionDef, ast.ClassDef)):
+                        setattr(s, field, put(sub))
+                for h in getattr(s, 'handlers', []):
+                    h.body = put(h.body)
+                res.append(s)
+            return res
+        new = put(new)
+        if placed[0] != 1:
+            return None
+        return binds + block(new, d - 1)
+
     def block(stmts: T.List[ast.stmt], d: int) -> T.List[ast.stmt]:
         out: T.List[ast.stmt] = []
         for st in stmts:
             done = False
+            if d > 0 and isinstance(st, ast.With) and len(st.items) == 1 and st.items[0].optional_vars is None:
+                cm = expand_cm(st.items[0].context_expr, st.body, d)
+                if cm is not None:
+                    out.extend(cm)
+                    continue
+            if d > 0 and isinstance(st, (ast.Return, ast.Assign, ast.AnnAssign)) and gen_call(st.value):
+                g = expand_gen(T.cast(ast.Call, gen_call(st.value)), d)
+                if g:
+                    out.extend(g[0])
+                    st2 = copy.copy(st)
+                    st2.value = g[1]  # type: ignore[assignment]
+                    out.append(st2)
+                    continue
             if d > 0:
                 if isinstance(st, ast.Expr) and eligible(st.value):
                     r = expand(eligible(st.value), st.value, 'stmt', d)  # type: ignore[arg-type]
@@ -589,6 +701,8 @@ class _Canon(ast.NodeTransformer):
 
     def visit_Call(self, c: ast.Call) -> ast.AST:
         self.generic_visit(c)
+        if attr_chain(c.func) in ('T.cast', 'typing.cast', 'cast') and len(c.args) == 2 and not c.keywords:
+            return c.args[1]
         # Class.m(self, ...) -> self.m(...)
         if isinstance(c.func, ast.Attribute) and isinstance(c.func.value, ast.Name) and c.func.value.id == self.cls and c.func.attr in self.methods \
                 and c.args and isinstance(c.args[0], ast.Name) and c.args[0].id == 'self':
@@ -790,10 +904,207 @@ def _inline_bool_locals(fn: ast.FunctionDef) -> None:
         Put().visit(st)
 
 
-def canonicalise(fn: ast.FunctionDef, methods: T.Dict[str, T.Any], cls: str) -> ast.FunctionDef:
+def _map_blocks(fn: ast.FunctionDef, f: T.Callable[[T.List[ast.stmt]], T.List[ast.stmt]]) -> None:
+    def block(stmts: T.List[ast.stmt]) -> T.List[ast.stmt]:
+        for st in stmts:
+            if isinstance(st, (ast.FunctionDef, ast.AsyncFunctionDef, ast.ClassDef)):
+                continue
+            for field in ('body', 'orelse', 'finalbody'):
+                sub = getattr(st, field, None)
+                if isinstance(sub, list) and sub and isinstance(sub[0], ast.stmt):
+                    setattr(st, field, block(sub))
+            for h in getattr(st, 'handlers', []):
+                h.body = block(h.body)
+        return f(stmts)
+    fn.body = block(fn.body)
+
+
+def _boolish(e: ast.AST) -> bool:
+    return isinstance(e, (ast.BoolOp, ast.Compare)) or (isinstance(e, ast.UnaryOp) and isinstance(e.op, ast.Not)) \
+        or (isinstance(e, ast.Call) and attr_chain(e.func) in ('any', 'all', 'bool'))
+
+
+def _statement_forms(fn: ast.FunctionDef) -> None:
+    """walrus in a test hoisted; `x = A if C else B` / `return A if C else B` -> if/else; a flag attribute assigned a condition
+    (`self.f = a or b`, `self.f |= c`) -> if/else of constant writes, so that every spelling of a flag computation (or-chain, if/elif
+    ladder of `= True`, `|=`) yields the same atoms and the same constant writes"""
+    def hoist(test: ast.AST) -> T.Tuple[T.List[ast.stmt], ast.AST]:
+        if isinstance(test, ast.NamedExpr):
+            return [ast.copy_location(ast.Assign(targets=[ast.Name(id=test.target.id, ctx=ast.Store())], value=test.value, lineno=test.lineno), test)], \
+                ast.Name(id=test.target.id, ctx=ast.Load())
+        if isinstance(test, ast.UnaryOp) and isinstance(test.op, ast.Not):
+            pre, t = hoist(test.operand)
+            return pre, (ast.UnaryOp(op=ast.Not(), operand=t) if pre else test)
+        if isinstance(test, ast.Compare):
+            pre, t = hoist(test.left)
+            return pre, (ast.Compare(left=t, ops=test.ops, comparators=test.comparators) if pre else test)
+        if isinstance(test, ast.BoolOp):
+            pre, t = hoist(test.values[0])
+            return pre, (ast.BoolOp(op=test.op, values=[t] + test.values[1:]) if pre else test)
+        return [], test
+
+    def const(st: ast.stmt, tgt: ast.AST, v: bool) -> ast.stmt:
+        return ast.copy_location(ast.Assign(targets=[copy.deepcopy(tgt)], value=ast.Constant(value=v), lineno=st.lineno), st)
+
+    def f(stmts: T.List[ast.stmt]) -> T.List[ast.stmt]:
+        out: T.List[ast.stmt] = []
+        for st in stmts:
+            if isinstance(st, ast.If):
+                pre, t = hoist(st.test)
+                if pre:
+                    out.extend(pre)
+                    st.test = t
+            if isinstance(st, ast.Assign) and len(st.targets) == 1 and isinstance(st.value, ast.IfExp) and isinstance(st.targets[0], (ast.Name, ast.Attribute)):
+                a = copy.copy(st)
+                a.value = st.value.body
+                b = copy.copy(st)
+                b.value = st.value.orelse
+                out.extend(f([ast.copy_location(ast.If(test=st.value.test, body=[a], orelse=[b]), st)]))
+            elif isinstance(st, ast.Return) and isinstance(st.value, ast.IfExp):
+                out.extend(f([ast.copy_location(ast.If(test=st.value.test, body=[ast.copy_location(ast.Return(value=st.value.body), st)],
+                                                       orelse=[ast.copy_location(ast.Return(value=st.value.orelse), st)]), st)]))
+            elif isinstance(st, ast.Assign) and len(st.targets) == 1 and (attr_chain(st.targets[0]) or '').startswith('self.') and _boolish(st.value):
+                out.append(ast.copy_location(ast.If(test=st.value, body=[const(st, st.targets[0], True)], orelse=[const(st, st.targets[0], False)]), st))
+            elif isinstance(st, ast.AugAssign) and isinstance(st.op, ast.BitOr) and (attr_chain(st.target) or '').startswith('self.'):
+                out.append(ast.copy_location(ast.If(test=st.value, body=[const(st, st.target, True)], orelse=[]), st))
+            else:
+                out.append(st)
+        return out
+    _map_blocks(fn, f)
+
+
+def _unroll_constant_loops(fn: ast.FunctionDef) -> None:
+    """`for f in (self.a, self.b): f(x)` -> `self.a(x); self.b(x)` (a fixed sequence of calls written as a loop over a display)"""
+    def f(stmts: T.List[ast.stmt]) -> T.List[ast.stmt]:
+        out: T.List[ast.stmt] = []
+        for st in stmts:
+            if isinstance(st, ast.For) and isinstance(st.iter, (ast.Tuple, ast.List)) and 1 <= len(st.iter.elts) <= 6 and not st.orelse \
+                    and isinstance(st.target, ast.Name) and all(attr_chain(x) is not None for x in st.iter.elts) \
+                    and not any(isinstance(n, (ast.Break, ast.Continue)) for b in st.body for n in walk_no_nested(b)) \
+                    and not any(isinstance(n, ast.Name) and n.id == st.target.id and isinstance(n.ctx, ast.Store) for b in st.body for n in ast.walk(b)):
+                name = st.target.id
+                for elt in st.iter.elts:
+                    class Put(ast.NodeTransformer):
+                        def visit_Name(self, n: ast.Name) -> ast.AST:
+                            return copy.deepcopy(elt) if n.id == name and isinstance(n.ctx, ast.Load) else n
+                    out.extend(Put().visit(copy.deepcopy(b)) for b in st.body)
+            else:
+                out.append(st)
+        return out
+    _map_blocks(fn, f)
+
+
+def _inline_named_conditions(fn: ast.FunctionDef) -> None:
+    """`c = <and/or/not ...>` directly followed by the statements that test it: the condition is put back into the tests
+    (nothing between the definition and a use may write what the condition reads, or call anything when it reads attributes)"""
+    def reads(e: ast.AST) -> T.Tuple[T.Set[str], bool]:
+        return {n.id for n in ast.walk(e) if isinstance(n, ast.Name)}, any(isinstance(n, (ast.Attribute, ast.Call, ast.Subscript)) for n in ast.walk(e))
+
+    def f(stmts: T.List[ast.stmt]) -> T.List[ast.stmt]:
+        out = list(stmts)
+        i = 0
+        while i < len(out):
+            st = out[i]
+            if isinstance(st, ast.Assign) and len(st.targets) == 1 and isinstance(st.targets[0], ast.Name) and \
+                    (isinstance(st.value, ast.BoolOp) or (isinstance(st.value, ast.UnaryOp) and isinstance(st.value.op, ast.Not))):
+                name = st.targets[0].id
+                total = sum(1 for n in ast.walk(fn) if isinstance(n, ast.Name) and n.id == name)
+                names, heavy = reads(st.value)
+                uses = 0
+                ok = True
+                j = i + 1
+                targets: T.List[ast.stmt] = []
+                while j < len(out) and ok:
+                    nxt = out[j]
+                    head: T.List[ast.AST] = [nxt.test] if isinstance(nxt, (ast.If, ast.While, ast.Assert)) else ([nxt] if not hasattr(nxt, 'body') else [])
+                    u = sum(1 for h in head for n in ast.walk(h) if isinstance(n, ast.Name) and n.id == name and isinstance(n.ctx, ast.Load))
+                    if u:
+                        uses += u
+                        targets.append(nxt)
+                    if uses == total - 1:
+                        break
+                    # nxt lies between the definition and a later use
+                    if any(isinstance(n, ast.Name) and isinstance(n.ctx, ast.Store) and n.id in names | {name} for n in ast.walk(nxt)) \
+                            or (heavy and any(isinstance(n, (ast.Call, ast.Attribute)) and (isinstance(n, ast.Call) or isinstance(n.ctx, ast.Store)) for n in ast.walk(nxt))):
+                        ok = False
+                    j += 1
+                if ok and uses and uses == total - 1:
+                    val = st.value
+
+                    class Put(ast.NodeTransformer):
+                        def visit_Name(self, n: ast.Name) -> ast.AST:
+                            return copy.deepcopy(val) if n.id == name and isinstance(n.ctx, ast.Load) else n
+                    for t in targets:
+                        if isinstance(t, (ast.If, ast.While, ast.Assert)):
+                            t.test = Put().visit(t.test)
+                        else:
+                            out[out.index(t)] = Put().visit(t)
+                    del out[i]
+                    continue
+            i += 1
+        return out
+    _map_blocks(fn, f)
+
+
+def _fold_constants(fn: ast.FunctionDef, consts: T.Dict[str, ast.AST]) -> None:
+    """a literal hoisted into a module/class constant is put back (names that the function binds itself are left alone)"""
+    if not consts:
+        return
+    own = {a.arg for a in fn.args.posonlyargs + fn.args.args + fn.args.kwonlyargs}
+    own |= {n.id for n in ast.walk(fn) if isinstance(n, ast.Name) and isinstance(n.ctx, (ast.Store, ast.Del))}
+
+    class Put(ast.NodeTransformer):
+        def visit_Name(self, n: ast.Name) -> ast.AST:
+            return copy.deepcopy(consts[n.id]) if isinstance(n.ctx, ast.Load) and n.id in consts and n.id not in own else n
+
+        def visit_Attribute(self, n: ast.Attribute) -> ast.AST:
+            self.generic_visit(n)
+            c = attr_chain(n)
+            return copy.deepcopy(consts[c]) if isinstance(n.ctx, ast.Load) and c in consts else n
+    for st in fn.body:
+        Put().visit(st)
+
+
+def _index_loops(fn: ast.FunctionDef) -> None:
+    """`for i in range(len(xs)): .. xs[i] ..` -> `for i, _item in enumerate(xs): .. _item ..` (xs not rebound or changed in the body)"""
+    k = [0]
+
+    def f(stmts: T.List[ast.stmt]) -> T.List[ast.stmt]:
+        for st in stmts:
+            if isinstance(st, ast.For) and isinstance(st.target, ast.Name) and isinstance(st.iter, ast.Call) and attr_chain(st.iter.func) == 'range' \
+                    and len(st.iter.args) == 1 and isinstance(st.iter.args[0], ast.Call) and attr_chain(st.iter.args[0].func) == 'len' \
+                    and len(st.iter.args[0].args) == 1 and attr_chain(st.iter.args[0].args[0]) is not None:
+                xs, i = st.iter.args[0].args[0], st.target.id
+                xt = attr_chain(xs)
+                base = (xt or '').split('.')[0]
+                if any(isinstance(n, ast.Name) and n.id in (i, base) and isinstance(n.ctx, ast.Store) for b in st.body for n in ast.walk(b)) \
+                        or any(isinstance(n, ast.Call) and isinstance(n.func, ast.Attribute) and attr_chain(n.func.value) == xt for b in st.body for n in ast.walk(b)):
+                    continue
+                k[0] += 1
+                item = f'_item{k[0]}'
+
+                class Put(ast.NodeTransformer):
+                    def visit_Subscript(self, n: ast.Subscript) -> ast.AST:
+                        self.generic_visit(n)
+                        if attr_chain(n.value) == xt and isinstance(n.slice, ast.Name) and n.slice.id == i and isinstance(n.ctx, ast.Load):
+                            return ast.copy_location(ast.Name(id=item, ctx=ast.Load()), n)
+                        return n
+                st.body = [Put().visit(b) for b in st.body]
+                st.target = ast.Tuple(elts=[ast.Name(id=i, ctx=ast.Store()), ast.Name(id=item, ctx=ast.Store())], ctx=ast.Store())
+                st.iter = ast.Call(func=ast.Name(id='enumerate', ctx=ast.Load()), args=[xs], keywords=[])
+        return stmts
+    _map_blocks(fn, f)
+
+
+def canonicalise(fn: ast.FunctionDef, methods: T.Dict[str, T.Any], cls: str, consts: T.Optional[T.Dict[str, ast.AST]] = None) -> ast.FunctionDef:
     """in place on a private copy of a function: the spelling normalisations above"""
+    _fold_constants(fn, consts or {})
+    _index_loops(fn)
     _desugar_next(fn)
+    _unroll_constant_loops(fn)
     _inline_bool_locals(fn)
+    _inline_named_conditions(fn)
     fn = _Canon(methods, cls).visit(fn)
+    _statement_forms(fn)
     _bool_returns(fn)
     return ast.fix_missing_locations(fn)
